@@ -71,6 +71,41 @@ def twoc_minimum_is_exact(prog: Program, run: Run, R: str) -> None:
                       "decoded from the bit pattern 100...0 cannot be re-encoded", f.loc)
 
 
+def _eval_enc(test: ast.AST, enc: str) -> Optional[bool]:
+    """Evaluate a test on `base_type_encoding` for one encoding ('None', 'TWOC', 'ONEC', 'SM')."""
+    def val(e: ast.AST) -> Optional[str]:
+        if isinstance(e, ast.Constant) and e.value is None:
+            return "None"
+        if isinstance(e, ast.Attribute) and isinstance(e.value, ast.Name) and \
+                e.value.id == "Encoding":
+            return e.attr
+        return None
+    if isinstance(test, ast.UnaryOp) and isinstance(test.op, ast.Not):
+        r = _eval_enc(test.operand, enc)
+        return None if r is None else not r
+    if isinstance(test, ast.BoolOp):
+        rs = [_eval_enc(v, enc) for v in test.values]
+        if any(r is None for r in rs):
+            return None
+        return all(rs) if isinstance(test.op, ast.And) else any(rs)
+    if isinstance(test, ast.Compare) and len(test.ops) == 1 and \
+            ast.unparse(test.left) == "base_type_encoding":
+        op, r = test.ops[0], test.comparators[0]
+        if isinstance(op, (ast.In, ast.NotIn)) and isinstance(r, (ast.Tuple, ast.List, ast.Set)):
+            vs = [val(e) for e in r.elts]
+            if any(v is None for v in vs):
+                return None
+            res = enc in vs
+            return res if isinstance(op, ast.In) else not res
+        if isinstance(op, (ast.Eq, ast.Is, ast.NotEq, ast.IsNot)):
+            v = val(r)
+            if v is None:
+                return None
+            res = enc == v
+            return res if isinstance(op, (ast.Eq, ast.Is)) else not res
+    return None
+
+
 NON_SETTABLE_EXPECT = ["CodedConstParameter", "PhysicalConstantParameter", "NrcConstParameter",
                        "ReservedParameter", "MatchingRequestParameter"]
 
@@ -482,7 +517,43 @@ def _representability(prog: Program, run: Run) -> None:
         mx = v if kind == "strict" else v - one
         if mx.same(half - one):
             ok_hi = True
-    # the lower bound may depend on the encoding: collect all definitions of min_value
+    # the lower bound per signed encoding: the branch tests that guard each definition of
+    # min_value are evaluated for base_type_encoding = None / TWOC / ONEC / SM
+    per_enc: Dict[str, Optional[Rat]] = {}
+    defs_mv = [x for s_ in body for x in walk_no_nested(s_)
+               if isinstance(x, ast.Assign) and ast.unparse(x.targets[0]) == "min_value"]
+    for enc in ("None", "TWOC", "ONEC", "SM"):
+        chosen = None
+        for x in defs_mv:
+            conds = cfg.branch_conditions(cfg.node_of(x))
+            verdicts = [(_eval_enc(c, enc), p) for c, p in conds
+                        if "base_type_encoding" in ast.unparse(c)]
+            if all(v is not None and v == p for v, p in verdicts):
+                chosen = x
+
+        def env3(node):
+            if isinstance(node, ast.Name) and node.id == "min_value":
+                return None
+            return env(node)
+        per_enc[enc] = normalize(chosen.value, env3) if chosen is not None else None
+    if defs_mv:
+        want_lo = {"None": Rat(Poly.const(0)) - half, "TWOC": Rat(Poly.const(0)) - half,
+                   "ONEC": one - half, "SM": one - half}
+        for enc, got in per_enc.items():
+            label = {"None": "no ENCODING (two's complement)", "TWOC": "2C", "ONEC": "1C",
+                     "SM": "SM"}[enc]
+            if got is not None and got.same(want_lo[enc]):
+                run.ok(R, C, f"A_INT32 / {label}: lower bound {want_lo[enc].key()}",
+                       f"{f.module.rel}:{ifn.lineno}")
+            else:
+                run.violation(R, C, f"int-lower-bound-{enc}",
+                              f"A_INT32 with encoding {label}: the encoder's lower bound is "
+                              f"`{got.key() if got is not None else None}`, the smallest "
+                              f"representable value is `{want_lo[enc].key()}`: "
+                              + ("-2^(n-1) has no bit pattern in this encoding, it is packed "
+                                 "into the pattern of another value" if enc in ("ONEC", "SM")
+                                 else "the value the decoder yields for 100...0 is rejected"),
+                              f"{f.module.rel}:{ifn.lineno}")
     mins: Dict[str, Rat] = {}
     for s in body:
         for x in walk_no_nested(s):
